@@ -110,12 +110,23 @@ Theorem C20_capture_refuted_when_late_bound :
 Proof. vm_compute. split; reflexivity. Qed.
 
 (* T20.ws, full statement: for ALL message sequences (every JSON kind, any nesting) on which the handler returns,
-   every message is handed to .ws.m exactly once, in arrival order, and the loop stays alive. Needs the regenerated
+   every message is handed to .ws.m exactly once, in arrival order, and the loop stays alive (intactness: C20_ws_intact). Needs the regenerated
    facts that KGFnWrapper converts lists with kg_asarray and passes None as :undefined (fixes 3618fda, 6c9cc59). *)
 Theorem C20_ws_in_order_once : forall ok msgs,
   (forall m, In m msgs -> ok m = true) -> ws_run impl_wflags ok msgs = (msgs, true).
 Proof. exact (fun ok msgs => ws_full impl_wflags ok msgs (eq_refl : wf_kg impl_wflags = true) (eq_refl : wf_none impl_wflags = true)). Qed.
 Print Assumptions C20_ws_in_order_once.
+
+(* ... intact, except an array mixing booleans with numbers (known finding: its true/false arrive as 1/0) *)
+Theorem C20_ws_intact : forall m, bn_mix m = false -> deliver impl_wflags m = DIntact.
+Proof.
+  exact (fun m H => eq_trans (deliver_good impl_wflags m (eq_refl : wf_kg impl_wflags = true) (eq_refl : wf_none impl_wflags = true))
+                             (f_equal (fun b : bool => if b then DChanged else DIntact) H)).
+Qed.
+Print Assumptions C20_ws_intact.
+Definition C20_ws_intact_full_statement : Prop := forall m, deliver impl_wflags m = DIntact.
+Theorem C20_ws_boolmix_refuted : deliver good_wflags (JArr [JBool true; JInt 2]) = DChanged.
+Proof. reflexivity. Qed.
 
 (* ... and whatever the handler does, the invocations are the deliverable messages of a prefix, in arrival order
    (a handler that raises ends the listen loop: the model follows the code) *)
